@@ -184,7 +184,17 @@ func init() {
 	})
 }
 
+// runC13: most cases run alone; some run as 2-3 concurrent sessions of the
+// same case shape in one process (package-level state in the code under test).
 func runC13(cs *vrt.Case) {
+	if cs.Idx%8 >= 4 && cs.Idx%16 < 8 {
+		cs.Twins(2+(cs.Idx/7)%2, func(sub *vrt.Case, _ *vrt.Rng) { runC13One(sub) })
+		return
+	}
+	runC13One(cs)
+}
+
+func runC13One(cs *vrt.Case) {
 	r := cs.Rng
 	switch cs.Idx % 4 {
 	case 0, 1:
